@@ -349,14 +349,14 @@ func idOfALine(a string) string {
 }
 
 type runner struct {
-	cfg     vh.Config
-	res     *vh.Result
-	tmp     string
-	terms   []string
-	cases   []any
-	seen    map[string]bool
-	nontriv int
-	nfile   int
+	cfg            vh.Config
+	res            *vh.Result
+	tmp            string
+	terms          []string
+	cases          []any
+	seen           map[string]bool
+	nontriv        int
+	nfile          int
 	ncap, capLimit int
 }
 
@@ -1373,7 +1373,7 @@ func Run(cfg vh.Config) (*vh.Result, error) {
 	}
 
 	nTx := cfg.Pick(750, 30000)
-	per := 1000
+	per := cfg.Pick(420, 1000)
 	shard := 1
 	for i := 0; i < nTx; i++ {
 		rn.runTx(genTx(rng, i))
